@@ -5,13 +5,16 @@ ROOT = os.path.dirname(os.path.dirname(os.path.abspath(__file__)))
 desc = json.load(open(os.path.join(ROOT, 'findings', 'descriptions.json')))
 owners = json.load(open(os.path.join(ROOT, 'findings', 'owners.json')))   # property -> [classes]
 props = sorted(owners)
+only = [a for a in sys.argv[1:] if a in owners]
+if only:
+    props = only
 w = json.loads(subprocess.run([sys.executable, os.path.join(ROOT, 'tools', 'mkwitness.py')] + props, stdout=subprocess.PIPE, text=True, check=True).stdout)
 old = {}
 p = os.path.join(ROOT, 'known_findings.json')
 if os.path.exists(p):
     for k in json.load(open(p))['findings']:
         old[(k['property'], k['class'])] = k
-findings = []
+findings = [k for k in old.values() if k['property'] not in props]
 for prop in props:
     for cls in owners[prop]:
         wit = w.get(prop, {}).get(cls)
